@@ -823,6 +823,8 @@ pub fn all() -> Vec<Box<dyn Check>> {
     }),
     Box::new(crate::inbound::C08),
     Box::new(crate::leak::C17),
+    Box::new(crate::requests::C19),
+    Box::new(crate::requests::C20),
     Box::new(crate::twins::C13),
     Box::new(crate::twins::C15),
     gen_check!("C14", "exploration",
